@@ -475,6 +475,13 @@ class InterpAlgorithmFixed(object):
         ndarray
             Derivative of interpolated values with respect to grid.
         """
+        if getattr(self, 'vec_coeff', None) is not None:
+            # The previous call ran vectorized. Its coefficient cache and bracket indices are laid
+            # out differently from the ones that the single-point path uses, so start fresh.
+            self.coeffs = {}
+            self.vec_coeff = None
+            self.last_index = [0] * self.dim
+
         idx, _ = self.bracket(x)
         result, d_dx, d_values, d_grid = self.interpolate(x, idx)
 
